@@ -3,7 +3,8 @@ CONSTANTS
   MaxN = 3
   MaxDepth = 2
   CatchUnwind = TRUE
-  BookFirst = FALSE
+  DropCatches = TRUE
+  BookFirst = TRUE
 SPECIFICATION FairSpec
 INVARIANT TypeOK SlabConsistent QuietProgramsClean GuardReleasedAtQuiescence GenProg
 PROPERTY Terminates
